@@ -3,6 +3,11 @@ the implementation: the datagrams on the simulated wire, the responses put on ea
 `update_observation_count` calls and cancellation-callback invocations of the test resource.
 
 Shares no code with aiocoap or the Lean model.  `check(res)` returns a list of (key, verdict).
+
+Keys that are recorded as known findings (known_findings.json): `C08:queued-notification-sent-after-end` (a
+notification first transmitted after the end), `C08:notification-retransmitted-after-end` (a notification first
+transmitted before the end, retransmitted after it; never the registration's final notification itself),
+`C08:reset-of-non-confirmable-notification-ignored`.
 """
 import wire as W
 
@@ -278,6 +283,15 @@ def check(res):
                 out.append(("C08:final-notification-not-sent",
                             f"{who}: the final notification put on the pipe at tick {fem['tick']} was never "
                             f"transmitted although every confirmable message to the observer was acknowledged"))
+
+        # "the registration ends when ... a notification is ... marked last": a change announced to this
+        # registration with is_last while it was alive has to end it (once the renders involved have returned)
+        if r.accepted and acc_seq is not None and r.end is None and sv not in res["final"]["suspended"] \
+                and sv not in res["script"].get("slow_add", []):
+            marked = [t for (t, ev, q) in ins if ev[0] == "T" and ev[2] == sv and ev[4] and q > acc_seq]
+            if marked:
+                out.append(("C08:last-marked-trigger-did-not-end",
+                            f"{who}: trigger(..., is_last=True) at tick {marked[0]} but the registration never ended"))
 
     # ---- the observer count ------------------------------------------------------------------------------------------
     prev = 0
